@@ -19,6 +19,10 @@ CONFIG = {'assumptions': [
     'line_program_for_CU: the unit and its line program use the same DWARF format and address size; the DWARF '
     'version of the unit is free (units of different versions may share one table: same program, same rows)',
     'unit_length < 2^32 - 16 (32-bit format) and header_length representable: generated units are a few KB',
+    'a type unit of .debug_types with DW_AT_stmt_list is a unit in the sense of the property: line_program_for_CU '
+    'gives it the table its attribute designates, independently of compile units at the same numeric offset',
+    'stream kinds: every case reads its sections from a drawn kind of stream; arbitrary-byte (raw) cases avoid mmap and '
+    'gzip, whose seek beyond the end differs from BytesIO/files (outside the property)',
     'real objects: llvm-dwarfdump 14 is the reference consumer; its rows were computed when the corpus was built, '
     'the check itself runs no external tool']}
 LEVEL = {'text': 'Machine-checked (Props/C05.v, 20 theorems, closed under the global context): C05_rows_equal / '
@@ -60,7 +64,10 @@ RULE = ('cases: prog = header parameters (opcode_base 1..255 incl. <13, line_ran
         'and strp_sup/GNU_strp_alt resolved from the .debug_str of a supplementary DWARFInfo) '
         'laid out in one .debug_line with gaps, parsed by DWARFInfo._parse_line_program_at_offset; cu = the same '
         'through line_program_for_CU of synthesized units (each lookup followed by get_entries), repeated lookups of '
-        'one table through the cache from units of the same and of different DWARF versions, in any order; raw = random bytes '
+        'one table through the cache from units of the same and of different DWARF versions, compile units of '
+        '.debug_info and type units of .debug_types (with DW_AT_stmt_list) side by side, in any order; LEB128 operands '
+        'and header numbers now and then padded to 18-41+ bytes; every case reads its sections from a drawn stream '
+        'kind (BytesIO, buffered files, 16-byte buffer, mmap, gzip, decoy descriptor); raw = random bytes '
         '(model vs implementation only, out of domain); real = the line tables of 54 real objects (18 gcc/gas and '
         'clang builds over -gdwarf-2..5, -gdwarf64, -m32, -O0..2; every linked ELF file of the library test '
         'directories incl. ARM, MIPS, SPARC, TI and Solaris producers) against the rows, include directories and '
@@ -160,6 +167,15 @@ def gen_instr(rng, params, addr, allow_define_file, pool=None):
     return ['ext_unknown', op, bytes(rng.getrandbits(8) for _ in range(rng.choice([0, 0, 1, 2, 9, rng.randint(0, 200)])))]
 
 
+LONG_PADS = [17, 18, 19, 20, 21, 40]
+
+
+def _pad(rng, usual, p_long=0.03):
+    """number of extra continuation bytes of a LEB128 encoding: DWARF 7.6 allows any number, so now and then a long
+    run (encodings of 18..41+ bytes, beyond any fixed-width integer)"""
+    return rng.choice(LONG_PADS) if rng.random() < p_long else rng.choice(usual)
+
+
 def gen_prog(rng, params, addr, n, allow_define_file=True, hfiles=()):
     """hfiles: the file entries of the header ([name, dir, mtime, length]).  Three programs in ten that may define
     files are 'file heavy': extra DW_LNE_define_file instructions, repeats included, between the others."""
@@ -171,8 +187,8 @@ def gen_prog(rng, params, addr, n, allow_define_file=True, hfiles=()):
             i = gen_define_file(rng, pool)
         else:
             i = gen_instr(rng, params, addr, allow_define_file, pool)
-        k = rng.choice([0, 0, 0, 0, 1, 2, 5])
-        kl = rng.choice([0, 0, 0, 0, 1, 3])
+        k = _pad(rng, [0, 0, 0, 0, 1, 2, 5])
+        kl = _pad(rng, [0, 0, 0, 0, 1, 3])
         prog.append([i, k, kl])
     return prog
 
@@ -302,7 +318,7 @@ def gen(ctx):
         if n and rng.random() < 0.5:
             prog.append([['end_sequence'], 0, 0])
         cases.append(('prog', [le, addr, version, params, prog, _garbage(rng, rng.choice([0, 0, 3, 40])),
-                               _garbage(rng, rng.choice([0, 0, 5])), hfiles]))
+                               _garbage(rng, rng.choice([0, 0, 5])), hfiles, _draw_kind(rng)]))
     # ---- repeated file entries (DWARF 6.2.5.3: every DW_LNE_define_file adds an entry, file numbers keep counting)
     f1, f2 = [b'a.c', 1, 0, 0], [b'b.h', 0, 7, 300]
     df = lambda f: [['define_file'] + f, 0, 0]
@@ -322,12 +338,13 @@ def gen(ctx):
         params = gen_params(rng, version)
         n = rng.randint(0, 30)
         data = bytes(rng.choice([0, 0, 1, 2, 3, 4, 9, 12, 13, 0x80, rng.getrandbits(8), rng.getrandbits(8)]) for _ in range(n))
-        cases.append(('raw', [rng.random() < 0.5, rng.choice([4, 8]), version, params, data, rng.randint(0, n)]))
+        cases.append(('raw', [rng.random() < 0.5, rng.choice([4, 8]), version, params, data, rng.randint(0, n),
+                              _draw_kind(rng)]))
     # ---- unit / cu: complete units in a .debug_line section
     for kind, count in (('unit', ctx.scale(400, 6000)), ('cu', ctx.scale(150, 2500))):
         for _ in range(count):
             le = rng.random() < 0.6
-            k = rng.choice([0, 0, 0, 1, 2])
+            k = _pad(rng, [0, 0, 0, 1, 2], 0.06)
             line_str, lsrefs = _strpool(rng)
             strsec, srefs = _strpool(rng)
             # the .debug_str of a supplementary object file handed to the DWARFInfo (absent in one case of eight)
@@ -349,10 +366,14 @@ def gen(ctx):
                 # the DWARF version of each looking-up unit: several units (of different versions, hence with
                 # different DWARFStructs objects) may designate the same table; the program does not depend on it
                 cuvers = [rng.choice([2, 3, 4, 5]) if x < 0 or rng.random() < 0.6 else units[x][0][1] for x in lookups]
+                # where each looking-up unit lives: 0 = a compile unit of .debug_info, 1 = a type unit of .debug_types
+                # (DWARF 4; its DW_AT_stmt_list designates the table its DW_AT_decl_file numbers refer to).  The two
+                # sections number their units independently, so offsets coincide (both start at 0).
+                places = [int(rng.random() < 0.35) for _ in lookups]
             else:
-                cuvers = None
+                cuvers = places = None
             cases.append((kind, [le, k, line_str, strsec, units, _garbage(rng, rng.choice([0, 4])), lookups, cuvers,
-                                 supsec]))
+                                 supsec, places, _draw_kind(rng)]))
     return cases
 
 
@@ -451,12 +472,31 @@ def _view(lp):
             lp.program_start_offset, lp.program_end_offset]
 
 
+_STREAMS = {'S': None, 'kind': 'bytesio'}
+
+
+def _open(data):
+    """the bytes as a stream of the kind drawn for the current case (tools/lib/streams.py)"""
+    S = _STREAMS['S']
+    return S.open(data, _STREAMS['kind']) if S is not None else io.BytesIO(data)
+
+
+def _kind_of(idx):
+    from tools.lib.streams import KINDS
+    return KINDS[idx % len(KINDS)] if isinstance(idx, int) else 'bytesio'
+
+
+def _draw_kind(rng):
+    from tools.lib.streams import KINDS, draw_kind
+    return KINDS.index(draw_kind(rng))
+
+
 def _sec(data, name):
     from elftools.dwarf.dwarfinfo import DebugSectionDescriptor
-    return DebugSectionDescriptor(io.BytesIO(data), name, None, len(data), 0)
+    return DebugSectionDescriptor(_open(data), name, None, len(data), 0)
 
 
-def _dwarfinfo(le, line, line_str, strsec, info=None, abbrev=None, sup=None):
+def _dwarfinfo(le, line, line_str, strsec, info=None, abbrev=None, sup=None, types=None):
     """sup: the .debug_str bytes of a supplementary object file (DWARFInfo.supplementary_dwarfinfo), or None"""
     from elftools.dwarf.dwarfinfo import DWARFInfo, DwarfConfig
     di = DWARFInfo(
@@ -471,7 +511,7 @@ def _dwarfinfo(le, line, line_str, strsec, info=None, abbrev=None, sup=None):
         debug_pubtypes_sec=None, debug_pubnames_sec=None, debug_addr_sec=None, debug_str_offsets_sec=None,
         debug_line_str_sec=_sec(line_str, '.debug_line_str') if line_str is not None else None,
         debug_loclists_sec=None, debug_rnglists_sec=None, debug_sup_sec=None, gnu_debugaltlink_sec=None,
-        debug_types_sec=None)
+        debug_types_sec=_sec(types, '.debug_types') if types else None)
     if sup is not None:
         di.supplementary_dwarfinfo = _dwarfinfo(le, b'', None, sup)
     return di
@@ -489,12 +529,14 @@ def _uleb(v):
             return bytes(out)
 
 
-def _build_cus(le, cus):
-    """cus: list of (version, is64, addr, stmt_list offset or None) -> (.debug_info, .debug_abbrev).
-    One abbreviation table per unit: DW_TAG_compile_unit, no children, optional DW_AT_stmt_list."""
+def _build_units(le, cus, places=None, sig_seed=0):
+    """cus: list of (version, is64, addr, stmt_list offset or None); places[j] = 1 puts unit j into .debug_types as
+    a type unit, else into .debug_info as a compile unit -> (.debug_info, .debug_types, .debug_abbrev).
+    One abbreviation table per unit: DW_TAG_compile_unit / DW_TAG_type_unit, no children, optional DW_AT_stmt_list."""
     bo = 'little' if le else 'big'
-    info, abbrev = b'', b''
-    for version, is64, addr, off in cus:
+    info, types, abbrev = b'', b'', b''
+    for j, (version, is64, addr, off) in enumerate(cus):
+        tu = bool(places and places[j])
         aoff = len(abbrev)
         osz = 8 if is64 else 4
         if version >= 4:
@@ -502,15 +544,24 @@ def _build_cus(le, cus):
         else:
             form = 0x07 if is64 else 0x06        # DW_FORM_data8 / data4 (lineptr class before DWARF 4)
         attrs = (_uleb(0x10) + _uleb(form)) if off is not None else b''
-        abbrev += _uleb(1) + _uleb(0x11) + b'\0' + attrs + b'\0\0' + b'\0'
+        abbrev += _uleb(1) + _uleb(0x41 if tu else 0x11) + b'\0' + attrs + b'\0\0' + b'\0'
         die = _uleb(1) + (off.to_bytes(osz, bo) if off is not None else b'')
-        if version >= 5:
+        if tu:
+            # Dwarf_TU_header: version, debug_abbrev_offset, address_size, signature, type_offset
+            hdr = version.to_bytes(2, bo) + aoff.to_bytes(osz, bo) + bytes([addr]) + \
+                ((sig_seed * 1000003 + j * 7919 + 1) % 2 ** 64).to_bytes(8, bo)
+            type_offset = (12 if is64 else 4) + len(hdr) + osz
+            body = hdr + type_offset.to_bytes(osz, bo) + die
+        elif version >= 5:
             body = version.to_bytes(2, bo) + bytes([1, addr]) + aoff.to_bytes(osz, bo) + die
         else:
             body = version.to_bytes(2, bo) + aoff.to_bytes(osz, bo) + bytes([addr]) + die
         il = (b'\xff\xff\xff\xff' + len(body).to_bytes(8, bo)) if is64 else len(body).to_bytes(4, bo)
-        info += il + body
-    return info, abbrev
+        if tu:
+            types += il + body
+        else:
+            info += il + body
+    return info, types, abbrev
 
 
 # ------------------------------------------------------------------ evaluation
@@ -565,7 +616,7 @@ def evaluate(ctx, cases):
             req3.append(['model_decode', [le, addr], params, version < 5, stream, len(pre), len(pre) + len(pb)])
             tags3.append(ci)
         elif kind == 'raw':
-            le, addr, version, params, data, end = a
+            le, addr, version, params, data, end = a[:6]
             built[ci] = (data, 0, end)
             req3.append(['model_decode', [le, addr], params, version < 5, data, 0, end])
             tags3.append(ci)
@@ -595,8 +646,41 @@ def evaluate(ctx, cases):
 
     # pass 4: the implementation
     _MEMO.clear()
+    from tools.lib.streams import Streams
+    import zlib
+    S = Streams(prefix='pv-streams-c05-')
+    _STREAMS['S'] = S
+    try:
+        _pass4(ctx, cases, built, info, ans3, S)
+    finally:
+        _STREAMS['S'] = None
+        _STREAMS['kind'] = 'bytesio'
+        S.close()
+
+
+def _pass4(ctx, cases, built, info, ans3, S):
+    from elftools.dwarf.lineprogram import LineProgram
+    from elftools.dwarf.structs import DWARFStructs
+    from elftools.construct.lib import Container, ListContainer
+    import zlib
     for ci, (kind, a) in enumerate(cases):
         ctx.bump('kind', kind)
+        if ci % 40 == 39:
+            _MEMO.clear()
+            S.drop_files()
+        # the kind of stream the library reads this case's sections from (same bytes on every kind)
+        kidx = {'prog': 8, 'raw': 6, 'unit': 10, 'cu': 10}.get(kind)
+        if kind == 'real':
+            sk = _kind_of(zlib.crc32(a[0].encode() if isinstance(a[0], str) else bytes(a[0])))
+        else:
+            sk = _kind_of(a[kidx]) if kidx is not None and len(a) > kidx else 'bytesio'
+        if kind == 'raw' and sk in ('mmap', 'gzip'):
+            # arbitrary bytes skip beyond the end of the stream (unknown extended opcode with a huge length): there
+            # mmap raises and gzip clamps where BytesIO and files just move on; the model describes the latter
+            sk = 'file'
+        _STREAMS['kind'] = sk
+        ctx.bump('stream_kind', sk)
+        ctx.bump('stream_kind_' + kind, sk)
         if kind in ('prog', 'raw'):
             le, addr, version, params = a[0], a[1], a[2], a[3]
             hfiles = a[7] if kind == 'prog' and len(a) > 7 else []
@@ -608,7 +692,7 @@ def evaluate(ctx, cases):
                             line_base=params[3], line_range=params[4], opcode_base=params[5],
                             file_entry=fe0 if version < 5 else ())
             def run():
-                lp = LineProgram(hdr, io.BytesIO(stream), ds, start, end)
+                lp = LineProgram(hdr, _open(stream), ds, start, end)
                 return _decoded(lp, len(stream))
             impl = impl_call(run)
             model = _with_table(ans3[ci], hfiles)
@@ -659,6 +743,7 @@ def evaluate(ctx, cases):
             le, k, line_str, strsec, units, trail, lookups = a[:7]
             cuvers = a[7] if len(a) > 7 and a[7] is not None else None
             supsec = a[8] if len(a) > 8 else None
+            places = a[9] if len(a) > 9 and a[9] is not None else None
             line, offs = built[ci]
             wf = all(bool(info[(ci, ui, 'wfh')]) and bool(info[(ci, ui, 'wf')]) for ui in range(len(units)))
             exp = []
@@ -683,9 +768,13 @@ def evaluate(ctx, cases):
                 else:
                     cus = [((cuvers[j] if cuvers else units[x][0][1]), units[x][0][0], units[x][0][2], offs[x]) if x >= 0
                            else ((cuvers[j] if cuvers else 4), False, 4, None) for j, x in enumerate(lookups)]
-                    dinfo, dabbrev = _build_cus(le, cus)
-                    di = _dwarfinfo(le, line, line_str, strsec, dinfo, dabbrev, sup=supsec)
-                    for cu in di.iter_CUs():
+                    dinfo, dtypes, dabbrev = _build_units(le, cus, places, sig_seed=len(line))
+                    di = _dwarfinfo(le, line, line_str, strsec, dinfo, dabbrev, sup=supsec, types=dtypes)
+                    # the unit objects, then the queries in the order of the lookups (compile and type units mixed)
+                    cu_objs, tu_objs = list(di.iter_CUs()), list(di.iter_TUs())
+                    ci_, ti_ = iter(cu_objs), iter(tu_objs)
+                    unit_objs = [next(ti_) if (places and places[j]) else next(ci_) for j in range(len(lookups))]
+                    for cu in unit_objs:
                         def one():
                             lp = di.line_program_for_CU(cu)
                             if lp is None:
@@ -699,6 +788,9 @@ def evaluate(ctx, cases):
                 if u[0][1] >= 5:
                     fs = {f for _, f in u[0][8] + u[0][10]}
                     ctx.bump('v5_supplementary_forms', 'used' if fs & {'strp_sup', 'GNU_strp_alt'} else 'not used')
+            if kind == 'cu' and places:
+                ctx.bump('cu_lookup_units', 'compile+type units' if 0 < sum(places) < len(places)
+                         else 'type units only' if sum(places) else 'compile units only')
             if kind == 'cu' and cuvers:
                 shared = {}
                 for x, v in zip(lookups, cuvers):
